@@ -609,7 +609,8 @@ fn oracle(c: &WireCase, cx: &mut CaseCtx) -> Result<(), String> {
 /// cannot be built (no nightly toolchain / cargo-fuzz) the stage is skipped and says so.
 fn libfuzzer_campaign(col: &mut vf_engine::Collector<WireCase>, seed: u64, runs: u64) -> String {
     use std::process::{Command, Stdio};
-    let fuzz_dir = "/verif/fuzz";
+    let fuzz_dir_owned = std::env::var("VERIF_FUZZ_DIR").unwrap_or_else(|_| "/verif/fuzz".to_owned());
+    let fuzz_dir = fuzz_dir_owned.as_str();
     let build = Command::new("cargo")
         .args(["+nightly", "fuzz", "build", "--fuzz-dir", fuzz_dir, "wire"])
         .current_dir(fuzz_dir)
@@ -646,7 +647,7 @@ fn libfuzzer_campaign(col: &mut vf_engine::Collector<WireCase>, seed: u64, runs:
         }
         let child = Command::new(&bin)
             .arg(&corpus)
-            .args([format!("-runs={}", runs / nproc), "-max_len=4096".into(), "-len_control=0".into(), "-timeout=20".into(), "-rss_limit_mb=4096".into(), format!("-seed={}", seed * nproc + k + 1), format!("-artifact_prefix={arts}"), "-print_final_stats=1".into(), "-verbosity=0".into()])
+            .args([format!("-runs={}", runs / nproc), "-max_len=4096".into(), "-len_control=0".into(), "-timeout=20".into(), "-rss_limit_mb=4096".into(), format!("-seed={}", seed * nproc + k + 1), format!("-artifact_prefix={arts}"), format!("-dict={fuzz_dir}/wire.dict"), "-print_final_stats=1".into(), "-verbosity=0".into()])
             .stdout(Stdio::null())
             .stderr(Stdio::piped())
             .spawn();
